@@ -337,6 +337,7 @@ func (w *World) setupFrame(c *Ctx, f *Frame, ct *Contract, st *State) {
 	env := f.specEnv(st, st)
 	env.locals = false
 	c.frameAllowed = map[string][]string{}
+	c.frameAllowedCond = map[string][][2]string{}
 	c.frameWhole = map[string]bool{}
 	for _, a := range ct.Assigns {
 		if a.Text == "*" {
@@ -352,8 +353,10 @@ func (w *World) setupFrame(c *Ctx, f *Frame, ct *Contract, st *State) {
 		for _, t := range ts {
 			if t.key == "" {
 				c.frameWhole[t.heap] = true
-			} else {
+			} else if t.cond == "" {
 				c.frameAllowed[t.heap] = append(c.frameAllowed[t.heap], t.key)
+			} else {
+				c.frameAllowedCond[t.heap] = append(c.frameAllowedCond[t.heap], [2]string{t.key, t.cond})
 			}
 		}
 	}
@@ -362,6 +365,10 @@ func (w *World) setupFrame(c *Ctx, f *Frame, ct *Contract, st *State) {
 
 // frameCheck: a write to heap h at key k must be allowed by the assigns clause.
 func (f *Frame) frameCheck(h, k string, pos token.Pos, what string) {
+	f.frameCheckCond(h, k, "", pos, what)
+}
+
+func (f *Frame) frameCheckCond(h, k, cond string, pos token.Pos, what string) {
 	c := f.c
 	if !c.frameOn || c.frameWhole[h] || c.suppress > 0 {
 		return
@@ -381,7 +388,10 @@ func (f *Frame) frameCheck(h, k string, pos token.Pos, what string) {
 	for _, a := range c.frameAllowed[h] {
 		alts = append(alts, eq(k, a))
 	}
-	f.oblige("frame", f.srcKey(pos, what)+" "+h, or(alts...), pos, "write to "+h+" outside the assigns clause")
+	for _, a := range c.frameAllowedCond[h] {
+		alts = append(alts, and(a[1], eq(k, a[0])))
+	}
+	f.oblige("frame", f.srcKey(pos, what)+" "+h, implies(cond, or(alts...)), pos, "write to "+h+" outside the assigns clause")
 }
 
 // assumeGlobalInits states facts about package-level variables that are never
